@@ -1,13 +1,233 @@
-(* Props/C01.v — placeholder: restates the writer-chain theorem; extended as the proofs land. *)
-From Coq Require Import List.
+(* Props/C01.v — responses leave a connection in request order and are never interleaved, whichever threads answer,
+   write through the raw writer or drop the requests, in whatever order and at whatever moments.
+   Statements only; proofs are in Conc/SeqWriter.v and Conc/SeqWriterFacts.v. The model is the sequential-writer
+   chain of src/util/sequential.rs under ALL label sequences (any number of writers, any threads, any
+   interleaving; `step … = None` means the calling thread blocks). `true` = the repaired tree (Drop waits for its
+   turn), `false` = the tree as found. *)
+From Coq Require Import List Arith Bool Lia.
 Import ListNotations.
-From TH Require Import Conc.SeqWriter.
+From TH Require Import Conc.SeqWriter Conc.SeqWriterFacts Conc.SeqWriterChan.
+
+(* 1. on every reachable state the socket stream is the in-order concatenation of the per-writer blocks *)
 Theorem c01_stream_is_ordered_concat :
   forall (byte : Type) (ls : list (label byte)) (s : st byte),
     run byte true (init byte) ls = Some s -> stream byte s = concat (map (sent byte) (ws byte s)).
 Proof. exact ordered_not_interleaved. Qed.
 Print Assumptions c01_stream_is_ordered_concat.
+
+(* the block of writer i sits exactly behind the blocks of writers 0..i-1 *)
+Theorem c01_writer_block_position :
+  forall (byte : Type) (ls : list (label byte)) (s : st byte) (i : nat) (wi : wr byte),
+    run byte true (init byte) ls = Some s -> nth_error (ws byte s) i = Some wi ->
+    exists pre post, stream byte s = pre ++ sent byte wi ++ post /\
+      pre = concat (map (sent byte) (firstn i (ws byte s))) /\
+      post = concat (map (sent byte) (skipn (S i) (ws byte s))).
+Proof.
+  intros byte ls s i wi H Hi. do 2 eexists. split; [|split; reflexivity].
+  apply stream_split; [apply reachable_inv; exists ls; exact H|exact Hi].
+Qed.
+Print Assumptions c01_writer_block_position.
+
+(* all bytes of writer i precede all bytes of writer j for i < j *)
+Theorem c01_blocks_ordered :
+  forall (byte : Type) (ls : list (label byte)) (s : st byte) (i j : nat) (wi wj : wr byte),
+    run byte true (init byte) ls = Some s -> i < j ->
+    nth_error (ws byte s) i = Some wi -> nth_error (ws byte s) j = Some wj ->
+    exists mid post,
+      stream byte s = concat (map (sent byte) (firstn i (ws byte s))) ++ sent byte wi ++ mid ++ sent byte wj ++ post /\
+      concat (map (sent byte) (firstn j (ws byte s))) = concat (map (sent byte) (firstn i (ws byte s))) ++ sent byte wi ++ mid.
+Proof.
+  intros byte ls s i j wi wj H. apply stream_blocks_ordered. apply reachable_inv. exists ls; exact H.
+Qed.
+Print Assumptions c01_blocks_ordered.
+
+(* the block of writer i is exactly the data of the `Write i` labels of the run, in their order; hence the socket
+   carries, for writer 0, 1, 2, … in this order, everything written through that writer *)
+Theorem c01_block_is_what_was_written :
+  forall (byte : Type) (fixed : bool) (ls : list (label byte)) (s : st byte) (i : nat) (w : wr byte),
+    run byte fixed (init byte) ls = Some s -> nth_error (ws byte s) i = Some w ->
+    sent byte w = writes_of byte i ls.
+Proof. exact sent_is_writes. Qed.
+Print Assumptions c01_block_is_what_was_written.
+
+Theorem c01_stream_is_per_writer_data :
+  forall (byte : Type) (ls : list (label byte)) (s : st byte),
+    run byte true (init byte) ls = Some s ->
+    stream byte s = concat (map (fun i => writes_of byte i ls) (seq 0 (length (ws byte s)))) /\
+    length (ws byte s) = length (filter (is_new byte) ls).
+Proof.
+  intros byte ls s H. split; [exact (stream_is_per_writer_data byte ls s H)|exact (run_length byte true ls _ s H)].
+Qed.
+Print Assumptions c01_stream_is_per_writer_data.
+
+(* 2. at most one writer is active (has taken its turn and is not yet dropped); everything before it is dropped,
+   everything after it has not had the turn and has written nothing *)
+Theorem c01_single_active :
+  forall (byte : Type) (ls : list (label byte)) (s : st byte) (i : nat) (wi : wr byte),
+    run byte true (init byte) ls = Some s ->
+    nth_error (ws byte s) i = Some wi -> turn byte wi = true -> dropped byte wi = false ->
+    (forall j wj, nth_error (ws byte s) j = Some wj -> turn byte wj = true -> dropped byte wj = false -> j = i) /\
+    (forall k wk, k < i -> nth_error (ws byte s) k = Some wk -> dropped byte wk = true) /\
+    (forall k wk, i < k -> nth_error (ws byte s) k = Some wk ->
+       turn byte wk = false /\ dropped byte wk = false /\ sent byte wk = []).
+Proof.
+  intros byte ls s i wi H Hi Ht Hd.
+  assert (HI : Inv byte s) by (apply reachable_inv; exists ls; exact H).
+  assert (Ha : active byte wi = true) by (unfold active; rewrite Ht, Hd; reflexivity).
+  split; [|split].
+  - intros j wj Hj Htj Hdj. apply (single_active byte s j i wj wi HI Hj); auto. unfold active. now rewrite Htj, Hdj.
+  - exact (active_before byte s i wi HI Hi Ha).
+  - exact (active_after byte s i wi HI Hi Ha).
+Qed.
+Print Assumptions c01_single_active.
+
+(* 3. nobody writes out of turn: a write succeeds only when all earlier writers were dropped; it appends to the
+   stream and to the writer's own block and touches no other writer *)
+Theorem c01_only_active_writes :
+  forall (byte : Type) (ls : list (label byte)) (s s' : st byte) (i : nat) (d : list byte),
+    run byte true (init byte) ls = Some s -> step byte true s (Write byte i d) = Some s' ->
+    (forall j wj, j < i -> nth_error (ws byte s) j = Some wj -> dropped byte wj = true) /\
+    (forall j, j <> i -> nth_error (ws byte s') j = nth_error (ws byte s) j) /\
+    (exists w w', nth_error (ws byte s) i = Some w /\ nth_error (ws byte s') i = Some w' /\
+       dropped byte w = false /\ sent byte w' = sent byte w ++ d /\ active byte w' = true) /\
+    stream byte s' = stream byte s ++ d.
+Proof.
+  intros byte ls s s' i d H. apply only_active_writes. apply reachable_inv. exists ls; exact H.
+Qed.
+Print Assumptions c01_only_active_writes.
+
+(* 4. progress. `least_undropped l = Some i` iff i is the smallest index of an undropped writer *)
+Theorem c01_least_undropped_spec :
+  forall (byte : Type) (l : list (wr byte)) (i : nat),
+    least_undropped byte l = Some i <->
+    (exists w, nth_error l i = Some w /\ dropped byte w = false) /\
+    (forall k wk, k < i -> nth_error l k = Some wk -> dropped byte wk = true).
+Proof.
+  intros byte l i. split; [apply least_undropped_some|].
+  intros ((w & Hi & Hd) & Hb). exact (least_undropped_intro byte l i w Hi Hd Hb).
+Qed.
+Print Assumptions c01_least_undropped_spec.
+
+(* the least undropped writer is never blocked (in any state, reachable or not) *)
+Theorem c01_least_undropped_enabled :
+  forall (byte : Type) (s : st byte) (i : nat),
+    least_undropped byte (ws byte s) = Some i ->
+    (forall d, exists s', step byte true s (Write byte i d) = Some s') /\
+    (exists s', step byte true s (Flush byte i) = Some s') /\
+    (exists s', step byte true s (DropW byte i) = Some s').
+Proof. exact least_undropped_enabled. Qed.
+Print Assumptions c01_least_undropped_enabled.
+
+(* from any reachable state whose least undropped writer is k: if writers k, k+1, …, n-1 are answered in this order,
+   each by an arbitrary list of writes and flushes followed by its drop, the run never blocks, ends with every
+   writer dropped, and appends the answers back to back *)
+Theorem c01_arrival_order_no_deadlock :
+  forall (byte : Type) (ls : list (label byte)) (s : st byte) (k : nat) (opss : list (list (op byte))),
+    run byte true (init byte) ls = Some s ->
+    least_undropped byte (ws byte s) = Some k -> length (ws byte s) = k + length opss ->
+    exists s', run byte true s (arrival byte k opss) = Some s' /\
+      stream byte s' = stream byte s ++ concat (map (data byte) opss) /\
+      length (ws byte s') = length (ws byte s) /\
+      least_undropped byte (ws byte s') = None.
+Proof.
+  intros byte ls s k opss H. apply arrival_order_no_deadlock. apply reachable_inv. exists ls; exact H.
+Qed.
+Print Assumptions c01_arrival_order_no_deadlock.
+
+Theorem c01_arrival_order_from_start :
+  forall (byte : Type) (opss : list (list (op byte))),
+    exists s, run byte true (init byte) (repeat (New byte) (length opss) ++ arrival byte 0 opss) = Some s /\
+      stream byte s = concat (map (data byte) opss) /\ length (ws byte s) = length opss /\
+      least_undropped byte (ws byte s) = None.
+Proof. exact arrival_from_start. Qed.
+Print Assumptions c01_arrival_order_from_start.
+
+(* the tree as found violated C01 (defect D1, repaired): a writer dropped without having waited for its turn
+   releases its successor early *)
 Theorem c01_asfound_refuted :
   exists ls s, run nat false (init nat) ls = Some s /\ stream nat s <> concat (map (sent nat) (ws nat s)).
 Proof. exact unfixed_refuted. Qed.
 Print Assumptions c01_asfound_refuted.
+
+(* ---------- non-vacuity ---------- *)
+Definition N3 : list (label nat) := [New nat; New nat; New nat].
+
+(* three requests answered in the order 2, 0, 1: writer 2 is refused (the thread blocks) at first ... *)
+Example c01_example_2_blocked_at_start :
+  run nat true (init nat) (N3 ++ [Write nat 2 [5; 6]]) = None /\
+  run nat true (init nat) (N3 ++ [Flush nat 2]) = None /\
+  run nat true (init nat) (N3 ++ [DropW nat 2]) = None.
+Proof. vm_compute. repeat split. Qed.
+
+(* ... and still after writer 0 alone has answered and was dropped ... *)
+Example c01_example_2_blocked_after_0 :
+  run nat true (init nat) (N3 ++ [Write nat 0 [1; 2]; Flush nat 0; DropW nat 0; Write nat 2 [5; 6]]) = None.
+Proof. vm_compute. reflexivity. Qed.
+
+(* ... and goes through once 0 and 1 are dropped (1 itself interleaves with 0's thread but must wait for 0's drop);
+   the stream is sent0 ++ sent1 ++ sent2 *)
+Example c01_example_201 :
+  match run nat true (init nat)
+          (N3 ++ [Write nat 0 [1; 2]; Flush nat 0; DropW nat 0; Write nat 1 [3]; Write nat 1 [4]; DropW nat 1;
+                  Write nat 2 [5; 6]; Flush nat 2; DropW nat 2]) with
+  | Some s => stream nat s = [1; 2] ++ [3; 4] ++ [5; 6] /\ map (sent nat) (ws nat s) = [[1; 2]; [3; 4]; [5; 6]] /\
+              least_undropped nat (ws nat s) = None
+  | None => False
+  end.
+Proof. vm_compute. repeat split. Qed.
+
+Example c01_example_1_waits_for_drop_of_0 :
+  run nat true (init nat) (N3 ++ [Write nat 0 [1; 2]; Write nat 1 [3]]) = None.
+Proof. vm_compute. reflexivity. Qed.
+
+(* an active writer in the middle of a run: writer 1 is active, 0 is dropped, 2 and 3 are silent *)
+Example c01_example_active :
+  match run nat true (init nat) (N3 ++ [DropW nat 0; Write nat 1 [3]; New nat]) with
+  | Some s => map (active nat) (ws nat s) = [false; true; false; false] /\ least_undropped nat (ws nat s) = Some 1
+  | None => False
+  end.
+Proof. vm_compute. repeat split. Qed.
+
+(* the hypotheses of c01_arrival_order_no_deadlock are met there: writers 1, 2, 3 are then answered in order *)
+Example c01_example_arrival :
+  match run nat true (init nat) (N3 ++ [DropW nat 0; Write nat 1 [3]; New nat]) with
+  | Some s =>
+      match run nat true s (arrival nat 1 [[OWrite nat [4]; OFlush nat]; []; [OWrite nat [7]; OWrite nat [8]]]) with
+      | Some s' => stream nat s' = [3; 4; 7; 8]
+      | None => False
+      end
+  | None => False
+  end.
+Proof. vm_compute. reflexivity. Qed.
+
+(* ---------- the explicit one-message channel (header note of Conc/SeqWriter.v) ---------- *)
+(* `step_chan` (Conc/SeqWriterChan.v) carries per writer `trig` (trigger still held) and `released` (the `()` message
+   is in its channel; set by the predecessor's drop, consumed by the first write / flush / drop). It accepts exactly the
+   same label sequences as `step true` and reaches the image under `abs` (released_i = dropped_{i-1} && ~turn_i,
+   trig_i = 0<i && ~turn_i, same dropped / sent / stream) *)
+Theorem c01_channel_refinement :
+  forall (byte : Type) (ls : list (label byte)),
+    run_chan byte (cinit byte) ls = option_map (abs byte) (run byte true (init byte) ls).
+Proof. exact channel_refinement. Qed.
+Print Assumptions c01_channel_refinement.
+
+Theorem c01_channel_same_enabledness :
+  forall (byte : Type) (ls : list (label byte)) (s : st byte) (l : label byte),
+    run byte true (init byte) ls = Some s ->
+    run_chan byte (cinit byte) ls = Some (abs byte s) /\
+    (step byte true s l = None <-> step_chan byte (abs byte s) l = None) /\
+    cstream byte (abs byte s) = stream byte s.
+Proof. exact channel_same_enabledness. Qed.
+Print Assumptions c01_channel_same_enabledness.
+
+Example c01_example_channel :
+  run_chan nat (cinit nat) (N3 ++ [Write nat 2 [5; 6]]) = None /\
+  run_chan nat (cinit nat) (N3 ++ [DropW nat 1]) = None /\
+  match run_chan nat (cinit nat) (N3 ++ [DropW nat 0]) with
+  | Some c => map (released nat) (cws nat c) = [false; true; false] /\ map (trig nat) (cws nat c) = [false; true; true]
+  | None => False end /\
+  match run_chan nat (cinit nat)
+          (N3 ++ [Write nat 0 [1; 2]; DropW nat 0; Write nat 1 [3; 4]; DropW nat 1; Write nat 2 [5; 6]; DropW nat 2; New nat]) with
+  | Some c => cstream nat c = [1; 2; 3; 4; 5; 6] /\ map (released nat) (cws nat c) = [false; false; false; true]
+  | None => False end.
+Proof. vm_compute. repeat split. Qed.
